@@ -10,7 +10,11 @@
 //!
 //! Item = (object type, DAG shape, timestamp pattern, rank order of the change ids, one *mode* per
 //! change): valid; commit signature that does not verify; or k accepted actions followed by one
-//! action the type rejects (k = 0, 1, 2; reasons per type in `cobgraph::reasons`).
+//! action the type rejects (k = 0, 1, 2; reasons per type in `cobgraph::reasons`). In the "rich"
+//! families the accepted actions are every sequence of 0..=2 action kinds ({edit, lifecycle,
+//! label, assign, comment(, review)}) that the acting key is authorised for — delegate,
+//! non-delegate creator of the object, non-delegate non-creator, stranger — crossed with every
+//! rejection reason, for objects created by a delegate and by a non-delegate.
 //!
 //! Oracle, from the property text only:
 //!  (1) every change constructed as unconditionally invalid is absent from the returned history;
@@ -40,6 +44,10 @@ enum ModeSet {
     OneInvalid,
     /// Every tuple over {valid, bad signature, reason 0 as 1st action, reason 0 as 2nd action}.
     Small,
+    /// Exactly one change is not valid; it takes every *rich* mode (every admissible sequence of
+    /// 0..=2 accepted actions of different kinds, authorised for the acting key, followed by every
+    /// rejection reason; acting key = delegate / non-delegate N / stranger), at every position.
+    RichOne,
 }
 
 #[derive(Clone, Copy, Debug)]
@@ -49,6 +57,8 @@ struct Family {
     modes: ModeSet,
     all_ranks: bool,
     all_ts: bool,
+    /// Who created the object: the delegate A or the non-delegate N.
+    root_author: usize,
 }
 
 fn small_modes() -> [Mode; 4] {
@@ -62,6 +72,7 @@ impl Family {
             ModeSet::AllTuples => all.pow(self.n as u32),
             ModeSet::OneInvalid => (all - 1) * self.n as u64,
             ModeSet::Small => 4u64.pow(self.n as u32),
+            ModeSet::RichOne => Mode::rich_all(self.kind, self.root_author).len() as u64 * self.n as u64,
         }
     }
     fn ts_count(&self) -> u64 {
@@ -83,7 +94,7 @@ impl Family {
     }
     fn describe(&self) -> Value {
         json!({"kind": self.kind.name(), "changes": self.n, "shapes": Shape::count(self.n), "timestamp_patterns": self.ts_count(),
-               "rank_orders": self.rank_count(), "mode_set": format!("{:?}", self.modes), "mode_tuples": self.mode_count(), "items": self.size()})
+               "rank_orders": self.rank_count(), "mode_set": format!("{:?}", self.modes), "created_by": ACTORS[self.root_author], "mode_tuples": self.mode_count(), "items": self.size()})
     }
     fn plan(&self, mut i: u64) -> Plan {
         let n = self.n;
@@ -116,10 +127,16 @@ impl Family {
                     m
                 })
                 .collect(),
+            ModeSet::RichOne => {
+                let rich = Mode::rich_all(self.kind, self.root_author);
+                let which = (mi % n as u64) as usize;
+                let m = rich[(mi / n as u64) as usize];
+                (0..n).map(|k| if k == which { m } else { Mode::Valid }).collect()
+            }
         };
         let ts: Vec<i64> = if self.all_ts { (0..n).map(|k| ((ts_i >> k) & 1) as i64).collect() } else { vec![0; n] };
         let rank = if self.all_ranks { Some(permutations(n)[rank_i as usize].clone()) } else { None };
-        Plan { kind: self.kind, shape, ts, modes, rank }
+        Plan { kind: self.kind, shape, ts, modes, rank, root_author: self.root_author }
     }
 }
 
@@ -127,13 +144,28 @@ fn families(thorough: bool) -> Vec<Family> {
     let mut f = vec![];
     for kind in KINDS {
         // Every mode alone, every pair of modes, in every shape / timestamp pattern / id order.
-        f.push(Family { kind, n: 1, modes: ModeSet::AllTuples, all_ranks: true, all_ts: true });
-        f.push(Family { kind, n: 2, modes: ModeSet::AllTuples, all_ranks: true, all_ts: true });
+        f.push(Family { kind, n: 1, modes: ModeSet::AllTuples, all_ranks: true, all_ts: true, root_author: N });
+        f.push(Family { kind, n: 2, modes: ModeSet::AllTuples, all_ranks: thorough, all_ts: true, root_author: N });
         // The DAG family with the small mode alphabet at every position.
-        f.push(Family { kind, n: 3, modes: ModeSet::Small, all_ranks: thorough, all_ts: true });
+        f.push(Family { kind, n: 3, modes: ModeSet::Small, all_ranks: thorough, all_ts: true, root_author: N });
         if thorough {
-            f.push(Family { kind, n: 3, modes: ModeSet::OneInvalid, all_ranks: false, all_ts: true });
-            f.push(Family { kind, n: 4, modes: ModeSet::Small, all_ranks: false, all_ts: false });
+            f.push(Family { kind, n: 3, modes: ModeSet::OneInvalid, all_ranks: false, all_ts: true, root_author: N });
+            f.push(Family { kind, n: 4, modes: ModeSet::Small, all_ranks: false, all_ts: false, root_author: N });
+        }
+        // Rich accepted prefixes x rejection reasons x acting key, for objects created by a
+        // delegate and by a non-delegate.
+        if kind != Kind::Identity {
+            let creators: &[usize] = if kind == Kind::Thread { &[N] } else { &[A, N] };
+            for root_author in creators {
+                f.push(Family { kind, n: 1, modes: ModeSet::RichOne, all_ranks: true, all_ts: true, root_author: *root_author });
+                f.push(Family { kind, n: 2, modes: ModeSet::RichOne, all_ranks: false, all_ts: thorough, root_author: *root_author });
+                if thorough && kind != Kind::Thread {
+                    // The basic alphabet also for objects created by a delegate.
+                    if *root_author == A {
+                        f.push(Family { kind, n: 2, modes: ModeSet::AllTuples, all_ranks: true, all_ts: true, root_author: A });
+                    }
+                }
+            }
         }
     }
     f
@@ -204,8 +236,10 @@ fn eval_plan(seed: u64, plan: &Plan) -> ItemOut {
         // reason when the accepted prefix of a multi-action change is what stays behind).
         let mechanism = |c: usize, fields: &str| -> String {
             match plan.modes.get(c.wrapping_sub(1)) {
-                Some(Mode::Rejected { pos, .. }) if *pos >= 1 => "multi-action-change/accepted-actions-before-the-rejected-one-stay-applied".to_string(),
-                Some(Mode::Rejected { .. }) => format!("single-rejected-action/{fields}"),
+                Some(m @ (Mode::Rejected { .. } | Mode::Rich { .. })) if m.prefix_len(kind) >= 1 => {
+                    "multi-action-change/accepted-actions-before-the-rejected-one-stay-applied".to_string()
+                }
+                Some(Mode::Rejected { .. } | Mode::Rich { .. }) => format!("single-rejected-action/{fields}"),
                 Some(Mode::BadSig) => "bad-commit-signature".to_string(),
                 _ => format!("valid-by-construction-rejected-in-context/{fields}"),
             }
@@ -213,6 +247,7 @@ fn eval_plan(seed: u64, plan: &Plan) -> ItemOut {
         let pos_cost = |c: usize| -> u64 {
             match plan.modes.get(c.wrapping_sub(1)) {
                 Some(Mode::Rejected { pos, reason }) => *pos as u64 * 10 + *reason as u64,
+                Some(m @ Mode::Rich { reason, .. }) => m.prefix_len(kind) as u64 * 10 + *reason as u64 + 5,
                 _ => 0,
             }
         };
@@ -436,6 +471,15 @@ fn main() {
     cov.insert("outcome_histogram".into(), Value::Object(m));
     cov.insert("distinct_outcomes".into(), json!(st.outcomes.len()));
     cov.insert("families".into(), json!(fams.iter().map(Family::describe).collect::<Vec<_>>()));
+    cov.insert(
+        "rich_modes".into(),
+        json!(KINDS
+            .iter()
+            .filter(|k| **k != Kind::Identity)
+            .map(|k| (k.name().to_string(), json!({"object_created_by_A": Mode::rich_all(*k, A).len(), "object_created_by_N": Mode::rich_all(*k, N).len(),
+                       "prefix_sequences": prefix_seqs(*k).len()})))
+            .collect::<Map<String, Value>>()),
+    );
     cov.insert(
         "modes".into(),
         json!(KINDS.iter().map(|k| (k.name().to_string(), json!(Mode::all(*k).iter().map(|m| m.label(*k)).collect::<Vec<_>>()))).collect::<Map<String, Value>>()),
